@@ -74,7 +74,7 @@ def gen_plan(seed, tier="quick"):
             specs.append(cmds.gen_cmd(r, cats16))
     if eng in ("tridonic", "hasseb", "luba", "sci"):
         plan = {"engine": "drvsim", "property": PROP, "driver": eng, "seed": seed,
-                "knobs": plans.gen_knobs(r, eng), "deadline_s": 3000,
+                "knobs": plans.gen_knobs(r, eng, allow_batch=True), "deadline_s": 3000,
                 "callers": [{"id": "A", "start_us": 0,
                              "ops": [{"kind": "send", "cmd": s, "outs": {}, "gap_us": 0} for s in specs]}]}
         plan["knobs"]["latency"] = "fast"
@@ -211,6 +211,10 @@ def judge_async(rr):
     slow = drv in _CONF_LIMIT_US and any(
         s_.get("conf_arrival_us") is None or s_["conf_arrival_us"] - s_["t_us"] > 0.8 * _CONF_LIMIT_US[drv]
         for s_ in rr.dev.sends if "t_us" in s_)
+    # batched delivery may push an answer past the receive time-out; a late answer reaches whoever
+    # asks next (the serial gateways' arrival-order matching, a known C16 finding): no receive-side
+    # comparison in such a run
+    late_somewhere = drv in _CONF_LIMIT_US and any(s_.get("late") or s_.get("ambiguous") for s_ in rr.dev.sends)
     # what each unit asked for
     want = {}
     for u, rec in rr.ops.items():
@@ -270,7 +274,7 @@ def judge_async(rr):
         if len(cmd.frame) == 24:
             rr.world.probe("24-bit-encoded")
         o = rec.op.get("outs", {}).get("%d:%d" % (spec[0], spec[1]))
-        if o is not None and u.startswith("A.") and not slow:
+        if o is not None and u.startswith("A.") and not slow and not late_somewhere:
             rr.world.probe("rx-" + o[0])
             result = rec.result if rec.op["kind"] == "send" else (rec.responses[0] if rec.responses else None)
             judge_response(lambda c_, d_, site=None: V("rx-" + c_, d_, site=site), drv, u, cmd, o, result,
@@ -349,6 +353,15 @@ def judge_sync(plan, world, results):
         if st != "ok":
             V("send-failed", "%s: %r" % (cmd, val), site=type(val).__name__)
             continue
+        if drv == "daliserver" and spec[2] == 0:
+            # receive side: the server's reply to *this* request, decoded for this command
+            exp_v = syncsim.c18_answer(spec[1]) if cmd.response is not None else None
+            raw = getattr(val, "raw_value", None)
+            if (exp_v is None and val is not None) or \
+                    (exp_v is not None and (raw is None or raw.error or raw.as_integer != exp_v)):
+                V("rx-wrong-answer", "%s: the server answered %s to this request, send returned %s" % (
+                    cmd, exp_v, raw if val is not None else None), site="multi" if plan["knobs"].get("multi") else "single")
+            world.probe("rx-value" if exp_v is not None else "rx-none")
         f = cmd.frame
         fb = f.as_integer.to_bytes(bits // 8, "big")
         tw = cmd.sendtwice
